@@ -13,7 +13,8 @@ repository changes the model. Implemented statements (exactly those the block st
                                   IntegrityError (OR IGNORE does not cover foreign keys)
   INSERT OR REPLACE / INSERT INTO  REPLACE deletes the conflicting row and appends the new one (fresh rowid: last in a scan
                                   without ORDER BY), foreign keys checked at statement end; plain INSERT raises on conflict
-  SELECT cols FROM t [ORDER BY c] rows in insertion (rowid) order; ORDER BY = stable sort, composed with a
+  CHECK (col op int)              parsed from the DDL; a violating row is skipped under OR IGNORE, raises otherwise
+  SELECT cols FROM t [ORDER BY c, ...] rows in insertion (rowid) order; ORDER BY = stable sort, composed with a
                                   caller-supplied permutation inside groups of equal keys (SQLite
                                   leaves the order of ties unspecified)
 
@@ -35,25 +36,28 @@ class OperationalError(Exception):
 
 
 class Table:
-    def __init__(self, name: str, cols: List[str], pk: List[str], uniques: List[List[str]], fks: List[Tuple[List[str], str, List[str]]]):
+    def __init__(self, name: str, cols: List[str], pk: List[str], uniques: List[List[str]], fks: List[Tuple[List[str], str, List[str]]],
+                 checks: Optional[List[Tuple[str, str, int]]] = None):
         self.name, self.cols, self.pk, self.uniques, self.fks = name, cols, pk, uniques, fks
+        self.checks: List[Tuple[str, str, int]] = list(checks or [])      # (column, operator, integer literal)
         self.rows: List[Tuple[Any, ...]] = []
 
     def col(self, c: str) -> int:
         return self.cols.index(c)
 
 
-_SCHEMA_CACHE: Dict[str, Tuple[str, List[str], List[str], List[List[str]], List[Tuple[List[str], str, List[str]]]]] = {}
+_SCHEMA_CACHE: Dict[str, Any] = {}
 _STMT_CACHE: Dict[str, Tuple[str, Any]] = {}
 
 
 def parse_create_table(sql: str) -> Table:
     # parsing is concrete text processing: done once per distinct statement text (the regex engine is slow under the tracer)
     if sql in _SCHEMA_CACHE:
-        n, c, p, u, f = _SCHEMA_CACHE[sql]
-        return Table(n, list(c), list(p), [list(x) for x in u], [(list(a), b, list(cc)) for (a, b, cc) in f])
+        n, c, p, u, f, k = _SCHEMA_CACHE[sql]
+        return Table(n, list(c), list(p), [list(x) for x in u], [(list(a), b, list(cc)) for (a, b, cc) in f], list(k))
     t = _parse_create_table(sql)
-    _SCHEMA_CACHE[sql] = (t.name, list(t.cols), list(t.pk), [list(x) for x in t.uniques], [(list(a), b, list(c)) for (a, b, c) in t.fks])
+    _SCHEMA_CACHE[sql] = (t.name, list(t.cols), list(t.pk), [list(x) for x in t.uniques], [(list(a), b, list(c)) for (a, b, c) in t.fks],
+                          list(t.checks))
     return t
 
 
@@ -79,8 +83,16 @@ def _parse_create_table(sql: str) -> Table:
     pk: List[str] = []
     uniques: List[List[str]] = []
     fks: List[Tuple[List[str], str, List[str]]] = []
+    checks: List[Tuple[str, str, int]] = []
     for p in parts:
         up = p.upper()
+        for cm in re.finditer(r"CHECK\s*\((.*?)\)", p, re.I | re.S):
+            mm = re.match(r"\s*(\w+)\s*(>=|<=|<>|!=|==|=|>|<)\s*(-?\d+)\s*$", cm.group(1))
+            if not mm:
+                raise OperationalError("unsupported CHECK constraint: " + cm.group(1)[:60])
+            checks.append((mm.group(1), mm.group(2), int(mm.group(3))))
+        if up.startswith("CHECK"):
+            continue
         if up.startswith("PRIMARY KEY"):
             pk = [c.strip() for c in re.search(r"\((.*?)\)", p).group(1).split(",")]
         elif up.startswith("UNIQUE"):
@@ -99,7 +111,23 @@ def _parse_create_table(sql: str) -> Table:
             mm = re.search(r"REFERENCES\s+(\w+)\s*\((.*?)\)", p, re.I)
             if mm:
                 fks.append(([c], mm.group(1), [x.strip() for x in mm.group(2).split(",")]))
-    return Table(name, cols, pk, uniques, fks)
+    return Table(name, cols, pk, uniques, fks, checks)
+
+
+def _check_holds(v: Any, op: str, lit: int) -> bool:
+    if v is None:
+        return True         # a CHECK whose expression is NULL is satisfied
+    if op == ">":
+        return v > lit
+    if op == ">=":
+        return v >= lit
+    if op == "<":
+        return v < lit
+    if op == "<=":
+        return v <= lit
+    if op in ("=", "=="):
+        return v == lit
+    return v != lit
 
 
 class Database:
@@ -150,10 +178,10 @@ class Database:
             t = self.tables[tname]
             rows = list(t.rows)
             if order:
-                k = t.col(order)
+                ks = [t.col(o) for o in order]
                 if self.tie_order is not None:
                     rows = self.tie_order(rows)
-                rows = _stable_sort(rows, k)
+                rows = _stable_sort(rows, ks)
             idx = list(range(len(t.cols))) if cols == ["*"] else [t.col(c) for c in cols]
             return [tuple(r[i] for i in idx) for r in rows]
         raise OperationalError("unsupported statement: " + sql[:80])
@@ -162,6 +190,12 @@ class Database:
         for v in row:
             if isinstance(v, int) and not isinstance(v, bool) and not (-(2 ** 63) <= v < 2 ** 63):
                 raise OverflowError("Python int too large to convert to SQLite INTEGER")
+        # CHECK constraints: OR IGNORE skips the row silently, otherwise the statement fails
+        for (c, op, lit) in t.checks:
+            if not _check_holds(row[t.col(c)], op, lit):
+                if mode == "ignore":
+                    return
+                raise IntegrityError("CHECK constraint failed: " + t.name)
         # uniqueness: primary key and UNIQUE constraints (NULLs never conflict)
         for keycols in ([t.pk] if t.pk else []) + t.uniques:
             idx = [t.col(c) for c in keycols]
@@ -247,21 +281,38 @@ def _classify_statement(sql: str) -> Tuple[str, Any]:
         m = re.match(r"INSERT INTO (\w+) VALUES \(([?, ]*)\)", s, re.I)
         out = ("insert-abort", m.group(1))
     elif up.startswith("SELECT"):
-        m = re.match(r"SELECT (.*?) FROM (\w+)(?: ORDER BY (\w+))?$", s, re.I)
+        m = re.match(r"SELECT (.*?) FROM (\w+)(?: ORDER BY ([\w, ]+?)(?: ASC)?)?$", s, re.I)
         if not m:
             raise OperationalError("unsupported select: " + s[:80])
-        out = ("select", ([c.strip() for c in m.group(1).split(",")], m.group(2), m.group(3)))
+        out = ("select", ([c.strip() for c in m.group(1).split(",")], m.group(2),
+                          [c.strip() for c in m.group(3).split(",")] if m.group(3) else None))
     else:
         raise OperationalError("unsupported statement: " + s[:80])
     _STMT_CACHE[sql] = out
     return out
 
 
-def _stable_sort(rows: List[Tuple[Any, ...]], k: int) -> List[Tuple[Any, ...]]:
+def _sql_gt(a: Any, b: Any) -> bool:
+    """SQLite ordering of the value kinds the store uses: NULL first, then integers, then blobs (bytewise)."""
+    if a is None or b is None:
+        return a is not None and b is None
+    if isinstance(a, (bytes, bytearray)) != isinstance(b, (bytes, bytearray)):
+        return isinstance(a, (bytes, bytearray))
+    return a > b
+
+
+def _stable_sort(rows: List[Tuple[Any, ...]], ks: List[int]) -> List[Tuple[Any, ...]]:
+    def gt(x: Tuple[Any, ...], y: Tuple[Any, ...]) -> bool:
+        for k in ks:
+            if _sql_gt(x[k], y[k]):
+                return True
+            if _sql_gt(y[k], x[k]):
+                return False
+        return False
     out: List[Tuple[Any, ...]] = []
     for r in rows:
         i = len(out)
-        while i > 0 and out[i - 1][k] > r[k]:
+        while i > 0 and gt(out[i - 1], r):
             i -= 1
         out.insert(i, r)
     return out
